@@ -13,7 +13,12 @@ use std::sync::Arc;
 
 pub const COUNTERS: &[&str] = &["moves_round_tripped", "squares_round_tripped", "strings_parsed_as_move", "strings_parsed_as_square", "move_parses_ok", "square_parses_ok", "strings_with_non_ascii", "max_length", "long_move_texts", "long_square_texts"];
 
-pub const ALPHABET: &[&str] = &["a", "b", "c", "d", "e", "f", "g", "h", "1", "2", "3", "4", "5", "6", "7", "8", "q", "r", "n", "i", "9", "0", "Q", " ", "é", "€", "😀", "x", "-", "B"];
+pub const ALPHABET: &[&str] = &["a", "b", "c", "d", "e", "f", "g", "h", "1", "2", "3", "4", "5", "6", "7", "8", "q", "r", "n", "i", "9", "0", "Q", " ", "é", "€", "😀", "x", "-", "B", "\n", "\r", "ű", "ı"];
+/// Suffix alphabet of the long-text sweep: the trie alphabet plus "truncation aliases" — 2-, 3- and
+/// 4-byte characters whose LOW BYTE (and, for some, low 7 bits) equals an ASCII character that
+/// means something to the parsers (q r n b, a, h, 1, 8): U+0171, U+0172, U+016E, U+0162, U+0161,
+/// U+0168, U+0131, U+0138, U+2071, U+2034, U+1F171, U+1F162.
+pub const SUFFIX_EXTRA: &[&str] = &["\u{172}", "\u{16e}", "\u{162}", "\u{161}", "\u{168}", "\u{138}", "\u{2071}", "\u{2034}", "\u{1f171}", "\u{1f162}", "\t", "=", "+", "#"];
 
 fn crumb(b: &[u8]) -> String {
     format!("parsing text {:?}", String::from_utf8_lossy(b))
@@ -93,7 +98,7 @@ fn round_trips(run: &Run) {
     }
 }
 
-pub const RULE: &str = "all 20480 move values and all 64 squares: rendering = source, destination, optional lower-case promotion letter, and parses back to the identical value; every string of length <= L (L = 5 quick, 6 thorough) over a 30-symbol alphabet {a-h, 1-8, q r n i 9 0 Q B x - space, and the 2/3/4-byte characters e-acute, euro sign, an emoji} walked as a trie (every prefix is a case), plus every well-formed 4-character move text followed by every suffix of up to 2 (thorough 3) symbols and every square text followed by every suffix of up to 4 (5) symbols: no panic in ChessMove::from_str / Square::from_str, and Ok(v) implies v.to_string() is a prefix of the input. distinct_nontrivial = strings on which at least one of the two parsers succeeded";
+pub const RULE: &str = "all 20480 move values and all 64 squares: rendering = source, destination, optional lower-case promotion letter, and parses back to the identical value; every string of length <= L (L = 5 quick, 6 thorough) over a 34-symbol alphabet {a-h, 1-8, q r n i 9 0 Q B x - space, LF, CR, the 2/3/4-byte characters e-acute, euro sign, an emoji, and two 2-byte characters whose low byte is 'q' and '1'} walked as a trie (every prefix is a case), plus every well-formed 4-character move text followed by every suffix of up to 2 (thorough 3) symbols over that alphabet extended by 14 more symbols (2/3/4-byte characters whose low byte equals r, n, b, a, h, 8, q, 4; tab, =, +, #) and every square text followed by every suffix of up to 4 (5) symbols: no panic in ChessMove::from_str / Square::from_str, and Ok(v) implies v.to_string() is a prefix of the input. distinct_nontrivial = strings on which at least one of the two parsers succeeded";
 
 pub fn run(tier: Tier) -> i32 {
     let run = Arc::new(Run::new("C13", tier, COUNTERS));
@@ -124,7 +129,7 @@ pub fn run(tier: Tier) -> i32 {
     for _ in 0..(slen + 2) {
         let mut next = vec![];
         for f in frontier.iter() {
-            for a in ALPHABET {
+            for a in ALPHABET.iter().chain(SUFFIX_EXTRA.iter()) {
                 next.push(format!("{f}{a}"));
             }
         }
@@ -134,7 +139,7 @@ pub fn run(tier: Tier) -> i32 {
             break;
         }
     }
-    let move_suffix_count = (0..=slen).map(|k| ALPHABET.len().pow(k as u32)).sum::<usize>();
+    let move_suffix_count = (0..=slen).map(|k| (ALPHABET.len() + SUFFIX_EXTRA.len()).pow(k as u32)).sum::<usize>();
     let long_moves: u64 = (0..4096u32)
         .into_par_iter()
         .map(|i| {
